@@ -426,7 +426,7 @@ class Executor:
         pre_class = w.cache_class()
         obs = w.scan(nonce, fault=fault, spelling=op.get("spelling"), verbose=op.get("verbose", False),
                      set_policy=self.set_policy, walk_policy=self.walk_policy, env=op.get("env"),
-                     read_fault=op.get("read_fault"))
+                     read_fault=op.get("read_fault"), new_process=not op.get("inproc"))
         raw = w.cache_bytes()
         C = w.cache_json()
         if raw is not None:
@@ -463,9 +463,21 @@ class Executor:
     def do_check(self, idx, op):
         w = self.world
         obs = w.check(op["args"], op.get("cwd", "root"), op.get("quiet", False), op["nonce"],
-                      set_policy=self.set_policy, walk_policy=self.walk_policy)
+                      set_policy=self.set_policy, walk_policy=self.walk_policy, new_process=not op.get("inproc"))
         if obs["outcome"] == "skipped":
             return obs
+        if op.get("inproc") and self.wl == "C06":
+            # the same invocation in a fresh process must say the same: nothing of an earlier
+            # invocation in this process may show
+            ref = w.check(op["args"], op.get("cwd", "root"), op.get("quiet", False), "%s/fresh" % op["nonce"],
+                          set_policy=self.set_policy, walk_policy=self.walk_policy)
+            a = O.parse_check_output(obs.get("stdout", ""))[:2]
+            b = O.parse_check_output(ref.get("stdout", ""))[:2]
+            if (obs["outcome"], obs.get("code"), sorted(a[0]), a[1]) != (ref["outcome"], ref.get("code"), sorted(b[0]), b[1]):
+                self.add(violation("C06", "check_independent_of_earlier_invocations",
+                                   "check %s, invoked again inside one process, printed %s / %s files; in a fresh process %s / %s"
+                                   % (op["args"], sorted(a[0]), a[1], sorted(b[0]), b[1]), idx))
+            self.probe("c06_inproc_check_compared")
         from .props import common
         common.after_check(self, idx, op, obs)
         return obs
